@@ -31,6 +31,7 @@ RULE = (
     "properties remain in the source. Non-trivial: a duplicate or stale event, or move mode with >= 3 RF files."
     ' Further dimensions: naive windows, sub-second file cadences with fractional window edges, construction through the `drf mirror` command line, link flag, verbose reports, a consumer downstream that prunes destination subdirectories; four LIVE scenarios with DigitalRFMirror.start() and the real observer threads (existing-then-live, late root, root replaced, backlog handled by start() while the observer delivers new files) judged with the sentinel protocol of vlib/live.py.'
 )
+RULE += ' Since rounds 7-8: aged source files, handlers built by the application from relative names.'
 ASSUMPTIONS = ["events are dispatched synchronously to every handler of DigitalRFMirror.event_handlers; no observer thread",
                "a crash of the mirror is modelled as stopping between two of its file-system operations (page cache intact)"]
 FLOORS = {"nontrivial": 0.5}
